@@ -55,6 +55,21 @@ type Ctx struct {
 	Counters   map[string]int64
 	log        []byte
 	Deadline   time.Time
+	minDone    map[string]bool
+}
+
+// mayMinimise rations minimisation: once per signature and at most 4 per
+// process, so that a change that breaks a property everywhere cannot make a
+// check run for hours. Unminimised violations are still reported and replayable.
+func (c *Ctx) mayMinimise(sig string) bool {
+	if c.minDone == nil {
+		c.minDone = map[string]bool{}
+	}
+	if c.minDone[sig] || len(c.minDone) >= 4 {
+		return false
+	}
+	c.minDone[sig] = true
+	return true
 }
 
 func (c *Ctx) count(k string, n int64) { c.Counters[k] += n }
@@ -203,6 +218,8 @@ func main() {
 		shard(o)
 	case "replay":
 		os.Exit(replay(o))
+	case "selftest":
+		os.Exit(selftest(o))
 	default:
 		fatal("unknown mode %s", os.Args[1])
 	}
@@ -477,4 +494,63 @@ func replay(o *opts) int {
 	}
 	fmt.Printf("VIOLATION property=%s replay=%s\n  clause: %s\n  detail: %s\n", v.Property, o.file, got.Clause, got.Detail)
 	return 1
+}
+
+// selftest: determinism at scale. For every property the first n cases are
+// executed in 6 separate processes (GOMAXPROCS 1, 4, 16, twice each); all
+// event-log digests must be identical.
+func selftest(o *opts) int {
+	bad := 0
+	props := []string{"C02", "C03", "C04", "C14", "C20"}
+	for _, p := range props {
+		n := 36
+		if p == "C04" {
+			n = 12
+		}
+		var only []string
+		for i := 0; i < n; i++ {
+			only = append(only, strconv.Itoa(i*7))
+		}
+		oo := *o
+		oo.prop = p
+		var cmds []*exec.Cmd
+		var outs []string
+		for rep := 0; rep < 2; rep++ {
+			for _, g := range []int{1, 4, 16} {
+				out := filepath.Join(o.scratch, fmt.Sprintf("self-%s-%d-%d.json", p, g, rep))
+				cmd := spawn(&oo, []string{"-only", strings.Join(only, ",")}, g, out)
+				if err := cmd.Start(); err != nil {
+					fatal("selftest: %v", err)
+				}
+				cmds, outs = append(cmds, cmd), append(outs, out)
+			}
+		}
+		var ref map[string]uint64
+		for i, cmd := range cmds {
+			if err := cmd.Wait(); err != nil {
+				fmt.Fprintf(os.Stderr, "selftest %s: shard failed: %v\n", p, err)
+				return 2
+			}
+			var r ShardResult
+			b, _ := os.ReadFile(outs[i])
+			if json.Unmarshal(b, &r) != nil {
+				return 2
+			}
+			if ref == nil {
+				ref = r.Digests
+				continue
+			}
+			for k, d := range r.Digests {
+				if ref[k] != d {
+					fmt.Fprintf(os.Stderr, "selftest: %s case %s: event log differs between processes\n", p, k)
+					bad++
+				}
+			}
+		}
+		fmt.Printf("selftest: %s: %d cases x 6 processes (GOMAXPROCS 1/4/16, twice): %d digest mismatch(es)\n", p, n, bad)
+	}
+	if bad > 0 {
+		return 2
+	}
+	return 0
 }
